@@ -308,11 +308,11 @@ def generate(run, tier):
     rng = run.rng("gen")
     big = tier != "quick"
     cases = []
-    for i in range(72 if not big else 900):
+    for i in range(72 if not big else 560):
         cases.append(gen_chain_case(rng, "push" if i % 2 == 0 else "verifying"))
-    for _ in range(48 if not big else 600):
+    for _ in range(48 if not big else 380):
         cases.append(gen_random_case(rng))
-    for _ in range(24 if not big else 300):
+    for _ in range(24 if not big else 200):
         cases.append(gen_comp_case(rng))
     return cases
 
